@@ -52,6 +52,11 @@ ROLE_TABLES = {
         "node_x": {"coord#0", "coordx"}, "node_y": {"coord#1", "coordy"}, "node_z": {"coord#2", "coordz"},
     },
 }
+# source variables that MAY additionally take part in a target (the format document gives them a part in decoding it, and whether they show up in the backward slice
+# depends on how the reader is written: a count used as a slice bound in a loop does not, the same count used as a mask does)
+ROLE_MAY = {
+    "uxarray/io/_esmf.py:_read_esmf": {"face_node_connectivity": {"numElementConn"}},     # entries past numElementConn[i] are padding (ESMFMESH)
+}
 # radians in the source (must be converted before the degree-valued *_lon/*_lat store)
 RADIAN_SOURCES = {"vlon", "vlat", "elon", "elat", "clon", "clat", "lonVertex", "latVertex", "lonCell", "latCell", "lonEdge", "latEdge"}
 
@@ -499,7 +504,8 @@ def _roles(run, P):
                 if key.endswith("_read_exodus"):
                     ok = len(rel) == 1 and rel <= want
                 else:
-                    ok = rel == want
+                    may = ROLE_MAY.get(key, {}).get(target, set())
+                    ok = want <= rel <= (want | may)
                 if ok:
                     run.holds("F-TABLE/reader-roles", c, where(f, st), f"{target} <- {sorted(rel)}")
                 elif opaque:
